@@ -484,3 +484,41 @@ def kept_one_shot_iterators(index, rels):
                         if len(reads) > 1 or in_loop:
                             out.append((rel, st, attr, len(reads)))
     return out
+
+
+
+def series_changed_through_alias(index, rel, clsname, lanes=("kcals", "fat", "protein")):
+    """[(function, statement, alias, source text)]: a local bound to the storage of a series held in a table (`x = table[key].kcals`, no copy,
+    no arithmetic) and then changed in place (`x -= ...`, `x[...] = ...`, x.fill(...)): for a numpy array that rewrites the table's own series"""
+    from .core import walk_no_nested, norm_src
+    out = []
+    for fn in [m for m in index.cls(rel, clsname).body if isinstance(m, ast.FunctionDef)]:
+        alias = {}
+        for st in walk_no_nested(fn):
+            if isinstance(st, ast.Assign) and len(st.targets) == 1 and isinstance(st.targets[0], ast.Name):
+                v = st.value
+                if isinstance(v, ast.Attribute) and v.attr in lanes and isinstance(v.value, ast.Subscript):
+                    alias.setdefault(st.targets[0].id, []).append(st)
+        if not alias:
+            continue
+        for st in walk_no_nested(fn):
+            tgt = None
+            if isinstance(st, ast.AugAssign):
+                tgt = st.target
+            elif isinstance(st, ast.Assign) and any(isinstance(t, ast.Subscript) for t in st.targets):
+                tgt = [t for t in st.targets if isinstance(t, ast.Subscript)][0]
+            elif isinstance(st, ast.Expr) and isinstance(st.value, ast.Call) and isinstance(st.value.func, ast.Attribute) \
+                    and st.value.func.attr in ("fill", "sort", "resize", "put", "itemset", "partition"):
+                tgt = st.value.func.value
+            if tgt is None:
+                continue
+            base = tgt
+            while isinstance(base, ast.Subscript):
+                base = base.value
+            if isinstance(base, ast.Name) and base.id in alias:
+                # every definition of the alias is such a storage reference (a copy made on another path would still leave this one)
+                defs = [s_ for s_ in walk_no_nested(fn) if isinstance(s_, ast.Assign) and any(isinstance(t, ast.Name) and t.id == base.id for t in s_.targets)]
+                bare = [s_ for s_ in defs if s_ in alias[base.id] and s_.lineno < st.lineno]
+                if bare:
+                    out.append((fn, st, base.id, norm_src(bare[-1].value)))
+    return out
